@@ -8,11 +8,16 @@
     come along as lookup tables filled from the real key constructors / bank keeper.
 
       corr:*   model [app_import] on the observed genesis disagrees with what the real InitGenesis
-               did (accept / reject, or the genesis the real module exports afterwards);
+               did (accept / reject, or the genesis the real module exports afterwards); for
+               exchange / marker / metadata (Corr/C18Gen.v) also: the secondary-index table the
+               model's import builds differs from the raw index entries read from the imported
+               chain's store, or the exporting chain's raw index entries are not the ones derived
+               from its exported records (the premise of the round-trip theorems);
       prop:*   the property's own check on the implementation's observations: the export after
                import differs from the export before, a fresh chain rejects the export, module
-               queries differ, (validation:) app hashes / results / events of two runs or of a
-               restarted run differ. *)
+               queries differ, raw index entries or raw store contents differ, a scripted
+               scenario's observation fails, (validation:) app hashes / results / events of two
+               runs or of a restarted run differ. *)
 From Coq Require Import ZArith NArith List String Bool Ascii.
 From PV Require Export Genesis.RoundTrip Genesis.QuarantineAccept Genesis.FullProduct Corr.CorrBase Corr.C18Gen.
 Import ListNotations.
